@@ -27,6 +27,8 @@ pub struct BCase {
     /// in insertion order; parent index refers to an earlier node
     pub nodes: Vec<BNode>,
     pub xref_stream: bool,
+    /// object numbers handed out by new_object_id() before the outline is built and filled in only afterwards
+    pub reserved: u8,
 }
 
 fn k(s: &str) -> Vec<u8> {
@@ -89,7 +91,9 @@ pub fn gen_case(r: &mut Rng) -> BCase {
             nodes[p].page = None;
         }
     }
-    BCase { n_pages, nodes, xref_stream: r.bool() }
+    let xref_stream = r.bool();
+    let reserved = if r.chance(1, 3) { 1 + r.below(3) as u8 } else { 0 };
+    BCase { n_pages, nodes, xref_stream, reserved }
 }
 
 struct Built {
@@ -122,10 +126,20 @@ fn build(c: &BCase) -> Built {
         let id = doc.add_bookmark(Bookmark::new(n.title.clone(), [0.1, 0.2, 0.3], 0, page), n.parent.map(|p| ids[p]));
         ids.push(id);
     }
-    let old_ids: BTreeSet<ObjectId> = doc.objects.keys().cloned().collect();
+    // numbers reserved by the application (to be filled in after the outline exists) are taken as well
+    let reserved: Vec<ObjectId> = (0..c.reserved).map(|_| doc.new_object_id()).collect();
+    let mut old_ids: BTreeSet<ObjectId> = doc.objects.keys().cloned().collect();
+    old_ids.extend(reserved.iter().cloned());
     let old_max = doc.max_id;
     doc.adjust_zero_pages();
     let outline = doc.build_outline();
+    for id in &reserved {
+        if doc.objects.contains_key(id) {
+            // reported by the fresh-id check below (the number is <= old_max); do not overwrite the evidence
+            continue;
+        }
+        doc.objects.insert(*id, Object::Dictionary(lopdf::dictionary! { "Reserved" => true }));
+    }
     if let Some(n) = outline {
         if let Ok(Object::Dictionary(dict)) = doc.get_object_mut((1, 0)) {
             dict.set("Outlines", Object::Reference(n));
@@ -312,7 +326,7 @@ pub fn run_case(c: &BCase) -> Option<(String, String)> {
 }
 
 fn case_json(c: &BCase) -> Value {
-    json!({"kind":"forest","n_pages":c.n_pages,"xref_stream":c.xref_stream,"nodes":c.nodes.iter().map(|n| json!({"title_utf16":n.title.encode_utf16().collect::<Vec<u16>>(),"title":n.title,"page":n.page,"parent":n.parent})).collect::<Vec<_>>()})
+    json!({"kind":"forest","n_pages":c.n_pages,"xref_stream":c.xref_stream,"reserved":c.reserved,"nodes":c.nodes.iter().map(|n| json!({"title_utf16":n.title.encode_utf16().collect::<Vec<u16>>(),"title":n.title,"page":n.page,"parent":n.parent})).collect::<Vec<_>>()})
 }
 
 pub fn run(cfg: &RunCfg) -> (PropMeta, ShardOut, Map<String, Value>) {
@@ -343,7 +357,7 @@ pub fn run(cfg: &RunCfg) -> (PropMeta, ShardOut, Map<String, Value>) {
     });
     let meta = PropMeta {
         level: "exploration",
-        rule: "random bookmark forests (1..60 bookmarks, random or chain-like parent choice so depth reaches ~60, children attached in any order, distinct titles drawn from ASCII / BMP / astral / whole Unicode range incl. the empty title, any target page, zero-page parents) over documents with 1..12 pages and both xref formats; pipeline add_bookmark -> adjust_zero_pages -> build_outline -> catalog /Outlines -> get_toc, and again after save_to + load_mem. Oracle: forest model (fresh ids, First/Last/Next/Prev/Parent lists in insertion order, decoded titles, destination pages with the documented zero-page fix-up, pre-order (title, level, page number)). distinct = distinct forests with more than one bookmark.".into(),
+        rule: "random bookmark forests (1..60 bookmarks, random or chain-like parent choice so depth reaches ~60, children attached in any order, distinct titles drawn from ASCII / BMP / astral / whole Unicode range incl. the empty title, any target page, zero-page parents, in a third of the cases 1-3 object numbers reserved with new_object_id() before and filled in after build_outline) over documents with 1..12 pages and both xref formats; pipeline add_bookmark -> adjust_zero_pages -> build_outline -> catalog /Outlines -> get_toc, and again after save_to + load_mem. Oracle: forest model (fresh ids, First/Last/Next/Prev/Parent lists in insertion order, decoded titles, destination pages with the documented zero-page fix-up, pre-order (title, level, page number)). distinct = distinct forests with more than one bookmark.".into(),
         assumptions: vec!["titles are pairwise distinct (get_toc keys entries by title, as the quantifier states)".into(), "leaf bookmarks always name a real page; only parents may be zero-page".into()],
         exhaustive: false,
         min_distinct: 500,
@@ -365,6 +379,6 @@ pub fn replay(w: &Value) -> Vec<Finding> {
                 .collect()
         })
         .unwrap_or_default();
-    let c = BCase { n_pages: w["n_pages"].as_u64().unwrap_or(1) as usize, nodes, xref_stream: w["xref_stream"].as_bool().unwrap_or(false) };
+    let c = BCase { n_pages: w["n_pages"].as_u64().unwrap_or(1) as usize, nodes, xref_stream: w["xref_stream"].as_bool().unwrap_or(false), reserved: w["reserved"].as_u64().unwrap_or(0) as u8 };
     run_case(&c).map(|(s, what)| Finding { signature: format!("C17/{}", s), what, witness: w.clone() }).into_iter().collect()
 }
